@@ -386,6 +386,52 @@ func runC13(c *Ctx) {
 			}
 		}
 	}
+	// (a') names that are used again: a later definition of the same name, or a subroutine of that name
+	// inside another definition, must not change what an earlier or an outer reference means
+	if c.Level("name reuse") {
+		pairs := [][2]string{
+			{"set a to pattern 'a'\nset b to pattern a 'b'\nset a to pattern 'd'\nfind all b a", "find all ('a' 'b') 'd'"},
+			{"set a to pattern 'a'\nset b to pattern a 'b'\nset a to pattern 'd'\nfind all a b", "find all 'd' ('a' 'b')"},
+			{"set a to pattern 'a'\nset b to pattern a 'b'\nset a to pattern 'd'\nfind all b a b", "find all ('a' 'b') 'd' ('a' 'b')"},
+			{"set a to pattern 'a'\nset b to pattern a 'b'\nset a to pattern 'd'\nfind all b a\nfind all a b", "find all ('a' 'b') 'd'\nfind all 'd' ('a' 'b')"},
+			{"set a to pattern 'a'\nset b to pattern a 'b'\nset c to pattern b a\nset a to pattern 'd'\nfind all c a", "find all (('a' 'b') 'a') 'd'"},
+			{"set q to pattern 'a'\nset b to pattern {'b'} = q q\nfind all b q", "find all (('b') ('b')) 'a'"},
+			{"set q to pattern 'a'\nset b to pattern {'b'} = q q\nfind all q b", "find all 'a' (('b') ('b'))"},
+			{"set q to pattern 'a'\nset b to pattern {'b'} = q q\nfind all q b q", "find all 'a' (('b') ('b')) 'a'"},
+			{"set q to pattern 'a' or 'd'\nset b to pattern {'b' maybe q} = q 'd'\nfind all b q", "find all ({'b' maybe r} = r 'd') ('a' or 'd')"},
+			{"set q to pattern 'a'\nfind all {'b'} = q q\nfind all q", "find all ('b') ('b')\nfind all 'a'"},
+			{"set a to pattern 'a'\nfind all a 'b'\nset a to pattern 'd'\nfind all a 'b'", "find all 'a' 'b'\nfind all 'd' 'b'"},
+		}
+		ntexts := texts("abd", 5)
+		for _, pr := range pairs {
+			pr := pr
+			if !c.Unit(func() string { return pr[0] }) {
+				continue
+			}
+			v1, e1, p1 := compileSafe(pr[0])
+			v2, e2, p2 := compileSafe(pr[1])
+			if e2 != nil || p2 != nil {
+				c.Note(fmt.Sprintf("name reuse: the written-out form %q is rejected: %v", pr[1], e2))
+				continue
+			}
+			if e1 != nil || p1 != nil {
+				c.Violation("COMPILE name-reuse", fmt.Sprintf("%q rejected: %v %v", pr[0], e1, p1), map[string]any{"kind": "compile", "src": pr[0], "want": "accepted"})
+				continue
+			}
+			for _, t := range ntexts {
+				c.Eval(1)
+				m1, pi1 := runSafe(v1, t)
+				m2, _ := runSafe(v2, t)
+				if len(m2) > 0 {
+					c.Nontrivial(1)
+				}
+				if pi1 != nil || !spansEqual(spansOf(m1), spansOf(m2), false) {
+					c.Violation("NAME-REUSE", fmt.Sprintf("%q on %q: %s (panic %v), but written out (%q) gives %s", pr[0], t, fmtSpans(spansOf(m1), false), pi1, pr[1], fmtSpans(spansOf(m2), false)),
+						map[string]any{"kind": "spans", "src": pr[0], "text": t, "want": fmtSpans(spansOf(m2), false)})
+				}
+			}
+		}
+	}
 	// (b) commands
 	if c.Level("commands") {
 		defs := c13Defs
